@@ -46,7 +46,7 @@ Print Assumptions C01_chunking_irrelevant.
 Theorem C01_reader_is_parser :
   forall inflate json_norm s cuts,
   read_stream current_variant MaxPacketBodySize inflate json_norm s cuts =
-  parse_stream MaxPacketBodySize inflate json_norm s.
+  parse_stream current_variant MaxPacketBodySize inflate json_norm s.
 Proof. exact (read_stream_is_parse_stream MaxPacketBodySize id_deflate). Qed.
 Print Assumptions C01_reader_is_parser.
 
